@@ -261,13 +261,15 @@ def run_extract(task):
     def fn(ctx: Ctx):
         cons, expect = [], []
         textv = SymStr([])
-        for li, (lens, agent) in enumerate(shape):
+        for li, entry in enumerate(shape):
+            lens, agent = entry[0], entry[1]
+            tail = list(entry[2]) if len(entry) > 2 else []  # concrete words after the symbolic ones (e.g. a second agent's name)
             ws = []
             for wi, ln in enumerate(lens):
                 vs = [z3.Int(f"l{li}w{wi}c{k}") for k in range(ln)]
                 cons += [name_char(v) for v in vs]
                 ws.append(SymStr([SymChar(v) for v in vs]))
-            words = [ws[0], SymStr.of(agent)] + ws[1:]
+            words = [ws[0], SymStr.of(agent)] + ws[1:] + [SymStr.of(t) for t in tail]
             line = SymStr.of(task.get("prefix", "")) + "(" + words[0]
             for w in words[1:]:
                 line = line + " " + w
@@ -284,7 +286,7 @@ def run_extract(task):
         conv = spc.PlanConverter.__new__(spc.PlanConverter)
         import logging
         conv.logger = logging.getLogger("verif")
-        return expect, conv._extract_plan_actions(textv, list(task["agents"]))
+        return expect, conv._extract_plan_actions(textv, list(task["agents"])), textv
 
     def on_path(ctx: Ctx, pr):
         if pr.kind == "exc":
@@ -294,7 +296,7 @@ def run_extract(task):
         if pr.value is None:
             return
         res["reached"] += 1
-        expect, got = pr.value
+        expect, got, textv = pr.value
         res["obligations"] += 1
         parts = [z3.BoolVal(len(got) == len(expect))]
         if len(got) == len(expect):
@@ -307,9 +309,15 @@ def run_extract(task):
                     for g, w in zip(gw, words):
                         gs = g if isinstance(g, SymStr) else SymStr.of(g)
                         parts.append(gs.eqz(w))
-        if ctx.valid(z3.And(parts)) is not None and res["outcome"] != "violation":
-            res["outcome"] = "violation"
-            res["cex"] = {"what": "extracted actions/agents differ from the plan lines"}
+        m = ctx.valid(z3.And(parts))
+        if m is not None and res["outcome"] != "violation":
+            plan_text = textv.concrete(m)
+            rp = concrete_extract(plan_text, task["agents"])
+            if rp["disagree"]:
+                res["outcome"] = "violation"
+                res["cex"] = {"what": f"extracted actions/agents differ from the plan lines: {rp}", "plan_text": plan_text}
+            else:
+                res["unconfirmed"] = res.get("unconfirmed", 0) + 1
 
     try:
         explore(fn, on_path, stats=stats, max_paths=50000, timeout_ms=5000)
@@ -320,6 +328,26 @@ def run_extract(task):
     res["paths"] = stats.paths
     res["stats"] = stats.as_dict()
     return res
+
+
+def concrete_extract(plan_text, agents):
+    """the real _extract_plan_actions (real re) on a concrete plan text; reference: tokens of each line, lower-cased,
+    executing agent = first agent name among the arguments"""
+    import logging
+    import re as real_re
+    import pddl_plus_parser.multi_agent.single_agent_plan_converter as spc
+    spc.re = real_re
+    conv = spc.PlanConverter.__new__(spc.PlanConverter)
+    conv.logger = logging.getLogger("verif")
+    want = []
+    for line in plan_text.splitlines():
+        body = line[line.index("("):].lower().replace("(", " ").replace(")", " ").split()
+        want.append([body[0], body[1:], next(w for w in body[1:] if w in agents)])
+    try:
+        got = [[ac.name, list(ac.parameters), ag] for ac, ag in conv._extract_plan_actions(plan_text, list(agents))]
+    except Exception as e:  # noqa
+        return {"plan_text": plan_text, "observed": f"{type(e).__name__}: {e}", "expected": want, "disagree": True}
+    return {"plan_text": plan_text, "observed": got, "expected": want, "disagree": got != want}
 
 
 def tasks_for(tier, seed):
@@ -336,6 +364,11 @@ def tasks_for(tier, seed):
     for shape in ([([1, 1], "a1")], [([2], "a2"), ([1, 1], "a1")], [([1, 1, 1], "a1")]):
         for prefix in ("", "0: ", "12: "):
             tasks.append({"kind": "extract", "shape": shape, "agents": ["a1", "a2"], "prefix": prefix})
+    # an action that also names other agents after the executing one (hand-over): the executing agent is the first agent
+    # name among the arguments, whatever the order of the agent list
+    for shape in ([([1, 1], "a2", ["a1"])], [([1], "a3", ["a1", "a2"]), ([1, 1], "a1", ["a3"])], [([1], "a2", ["a2"])]):
+        for agents in (["a1", "a2", "a3"], ["a3", "a2", "a1"]):
+            tasks.append({"kind": "extract", "shape": shape, "agents": agents, "prefix": ""})
     return tasks
 
 
@@ -425,6 +458,10 @@ def replay(payload, path):
     if t["kind"] == "convert" and cx.get("atoms") is not None:
         rp = concrete_convert(t, cx["atoms"], cx["fluents"])
         print(json.dumps(callsym._jsonable(rp), indent=1))
+        bad = rp["disagree"]
+    elif t["kind"] == "extract" and cx.get("plan_text") is not None:
+        rp = concrete_extract(cx["plan_text"], t["agents"])
+        print(json.dumps(rp, indent=1))
         bad = rp["disagree"]
     else:
         r = _dispatch(t)
